@@ -8,6 +8,7 @@ import (
 	"fmt"
 	"io"
 	"net"
+	"net/http"
 	"net/url"
 	"runtime"
 	"strings"
@@ -60,6 +61,9 @@ type kase struct {
 	Reuse bool     `json:"reuse,omitempty"`
 	RPC   rpcSpec  `json:"rpc"`
 	RPC2  *rpcSpec `json:"rpc2,omitempty"` // a second RPC running concurrently on the same channel
+	// Cut: the HTTP response is cut (cut.go): the genuine reply of the real server
+	// to this case is replayed to the real client, ending after Cut.Off body bytes.
+	Cut *cutSpec `json:"cut,omitempty"`
 }
 
 func (k kase) key() string {
@@ -72,6 +76,9 @@ func (k kase) key() string {
 	}
 	if k.Reuse {
 		s += "|reuse"
+	}
+	if k.Cut != nil {
+		s += fmt.Sprintf("|cut@%d/%d,%s", k.Cut.Off, k.Cut.Len, k.Cut.Ending)
 	}
 	return s
 }
@@ -136,6 +143,9 @@ type rpcRun struct {
 	findings []finding
 	frames   int // messages that went through the transport
 
+	// cut cases: what does not change between the replays of one recording
+	fixed *fixedParts
+
 	handlerEntered int32
 	srvDone        chan struct{}
 	srvErr         error
@@ -157,10 +167,24 @@ func (r *rpcRun) add(clause, dir, what string) {
 }
 
 func (r *rpcRun) build(dir string, idx int) interface{} {
+	if r.fixed != nil && dir == "req" {
+		return r.fixed.request(r, idx)
+	}
 	return inRep(r.shape.build(variant(r.id, dir, idx)), r.k.SendRep)
 }
 
+// want: the message sent at position idx of the direction, in generated form.
+func (r *rpcRun) want(dir string, idx int) proto.Message {
+	if r.fixed != nil {
+		return r.fixed.want(r, dir, idx)
+	}
+	return r.shape.build(variant(r.id, dir, idx))
+}
+
 func (r *rpcRun) dest() interface{} {
+	if r.fixed != nil {
+		return r.fixed.dest(r)
+	}
 	return inRep(junk(r.shape.Type), r.k.RecvRep)
 }
 
@@ -195,7 +219,7 @@ func (r *rpcRun) onRecv(dir string, got interface{}) {
 			idx, describeMsg(g), handed, r.expectedCount(dir)))
 		return
 	}
-	want := r.shape.build(variant(r.id, dir, idx))
+	want := r.want(dir, idx)
 	if proto.Equal(g, want) {
 		return
 	}
@@ -533,7 +557,7 @@ type env struct {
 	close func()
 }
 
-func setup(transport string, svc *common.Svc) (env, error) {
+func setup(transport string, svc *common.Svc, wrap func(http.RoundTripper) http.RoundTripper) (env, error) {
 	switch transport {
 	case "inproc":
 		ch := &inprocgrpc.Channel{}
@@ -543,7 +567,11 @@ func setup(transport string, svc *common.Svc) (env, error) {
 		srv := httpgrpc.NewServer()
 		srv.RegisterService(svc.Desc(), common.Impl{})
 		u, _ := url.Parse("http://example.test/")
-		return env{cc: &httpgrpc.Channel{Transport: common.HandlerRT(srv), BaseURL: u}, close: func() {}}, nil
+		rt := common.HandlerRT(srv)
+		if wrap != nil {
+			rt = wrap(rt)
+		}
+		return env{cc: &httpgrpc.Channel{Transport: rt, BaseURL: u}, close: func() {}}, nil
 	case "grpc":
 		// the standard transport, in memory: used only to validate the oracle
 		lis := bufconn.Listen(1 << 20)
@@ -566,10 +594,22 @@ type outcome struct {
 	Frames   int // messages obtained by a receiver through the transport
 	Observed string
 	Internal string // the checker could not run the case
+	runs     []*rpcRun
+	// cut cases: the client read every byte of the cut reply body
+	cutDelivered bool
 }
 
 // runCase runs the case to completion. The caller applies the hang guard.
 func runCase(k kase) (o outcome) {
+	if k.Cut != nil {
+		return runCut(k)
+	}
+	return runCaseWrap(k, nil)
+}
+
+// runCaseWrap: wrap (HTTP only, may be nil) is put around the round tripper
+// that leads to the real server.
+func runCaseWrap(k kase, wrap func(http.RoundTripper) http.RoundTripper) (o outcome) {
 	s := shapeByName[k.Shape]
 	if s == nil {
 		o.Internal = "unknown shape " + k.Shape
@@ -624,7 +664,7 @@ func runCase(k kase) (o outcome) {
 		}
 		svc.Streams[name] = sd
 	}
-	e, err := setup(k.Transport, svc)
+	e, err := setup(k.Transport, svc, wrap)
 	if err != nil {
 		o.Internal = "transport setup: " + err.Error()
 		return
@@ -665,6 +705,7 @@ func runCase(k kase) (o outcome) {
 			r.spec.Kind, len(r.recvd[0]), r.spec.N, len(r.recvd[1]), r.spec.M, errStr(r.cliErr), errStr(r.srvErr)))
 	}
 	o.Observed = strings.Join(obs, "; ")
+	o.runs = runs
 	return
 }
 
